@@ -410,6 +410,14 @@ func c05Full(t *rapid.T) {
 		ds.VerifSetResume(c.runid, 0, c.offset, "")
 	}
 	desc := c.String()
+	if c.full && rapid.IntRange(0, 2).Draw(t, "staleCheckpoint") == 0 {
+		// the tool resumes from a checkpoint of an earlier source incarnation (other run id, offset beyond what the source
+		// announces now); the source answers with a full resync: the announced run id and offset are the ones that count
+		ask = "0123456789abcdef0123456789abcdef01234567"
+		staleOff := c.offset + int64(rapid.SampledFrom([]int{1, 1000, 1 << 30}).Draw(t, "staleAhead"))
+		ds.VerifSetResume(ask, 0, staleOff, "")
+		desc += fmt.Sprintf(" resumed-from-stale-checkpoint(%s,%d)", ask[:6], staleOff)
+	}
 	var piper pipe.Reader
 	var nsize int64
 	var isFull bool
@@ -478,6 +486,14 @@ func c05Dump(t *rapid.T) {
 	defer os.RemoveAll(dir)
 	out := filepath.Join(dir, "dump.rdb")
 	desc := c.String()
+	if rapid.IntRange(0, 2).Draw(t, "outputExists") == 0 {
+		// the output path already holds an older, longer dump: the new file must still be exactly the RDB
+		old := bytes.Repeat([]byte("old dump "), (len(c.rdb)+rapid.IntRange(1, 5000).Draw(t, "oldExtra"))/9+1)
+		if err := os.WriteFile(out, old, 0644); err != nil {
+			t.Fatalf("harness: %v", err)
+		}
+		desc += fmt.Sprintf(" output-path-holds-%dB", len(old))
+	}
 	var rd *bufio.Reader
 	var size int64
 	var res logcap.Result
